@@ -928,7 +928,8 @@ is_unescaped_in_path(const uint8_t c) {
 
 static int
 is_unescaped_in_query(const uint8_t c) {
-  return is_unescaped_in_path(c) || c=='/' || c=='?';
+  /* RFC 7252 6.5 step 7: '&' separates the arguments and must be escaped inside one */
+  return (is_unescaped_in_path(c) && c != '&') || c=='/' || c=='?';
 }
 
 coap_string_t *
